@@ -9,7 +9,17 @@ From Texel Require Import Chess.Types Chess.Position Chess.Fen Chess.Spec TextIO
 Import ListNotations.
 Local Open Scope N_scope.
 
-Definition legalOf (p : position) : list move := legal_moves_spec (abs p).
+(** one occurrence (the last) of every element: a set as a duplicate-free list *)
+Fixpoint dedup (l : list move) : list move :=
+  match l with
+  | [] => []
+  | a :: t => if existsb (move_eqb a) t then dedup t else a :: dedup t
+  end.
+
+(** the legal moves of the position as a SET: the duplicate-free enumeration of the moves the
+    FIDE specification allows ([Spec.legal_moves_spec] has no duplicates on any position the
+    check has generated; the model does not rely on that) *)
+Definition legalOf (p : position) : list move := dedup (legal_moves_spec (abs p)).
 Definition gcOf (p : position) (m : move) : bool := gives_check_spec (abs p) m.
 Definition mateOf (p : position) (m : move) : bool :=
   match legal_moves_spec (make_spec (abs p) m) with [] => true | _ => false end.
